@@ -1,14 +1,45 @@
 (* C17 lemmas, part 3: the theorems about `render`, the traceback frame, and the refutations of the
    call-site facts of rich 9.10.0 as found. *)
 From RichModel Require Import Prelude Cells Segments Syntax SpecSyntax.
-From RichProofs Require Import CellsP SegmentsP SyntaxP SyntaxP2.
+From RichProofs Require Import CellsP SegmentsP SyntaxP SyntaxP2 SyntaxW SyntaxG.
 From Coq Require Import ZifyBool Lia.
-
-Definition WrapOk (wrapf : str -> Z -> bool -> list str) : Prop :=
-  forall line w pad, 0 <= w -> wrap_ok_b line w (wrapf line w pad) = true.
 
 Definition range_end_nonneg (o : opts) : Prop :=
   match o_range o with Some (_, e) => 0 <= e | None => True end.
+(* the option domain of the theorems *)
+Definition opts_ok (o : opts) (cw : Z) : Prop :=
+  0 <= o_start_line o /\ range_end_nonneg o /\ 0 <= cw /\
+  (o_word_wrap o = true -> 2 <= cw) /\ (o_indent_guides o = true -> 1 <= o_tab_size o).
+
+(* ------------------------------------------------------------------ lines without "\n" *)
+Lemma split_nl_nlfree s : Forall nlfree (split_nl s).
+Proof.
+  induction s as [|c r IH]; [constructor; [reflexivity|constructor]|]. cbn [split_nl]. destruct (c =? NL) eqn:E.
+  - constructor; [reflexivity|exact IH].
+  - destruct (split_nl r) as [|l ls]; [constructor; [unfold nlfree; cbn [nls]; rewrite E; reflexivity|constructor]|].
+    inversion IH; subst. constructor; [unfold nlfree in *; cbn [nls]; rewrite E; assumption|assumption].
+Qed.
+Lemma Forall_firstn' {A} (P : A -> Prop) n l : Forall P l -> Forall P (firstn n l).
+Proof. revert l. induction n; intros [|x l] H; try constructor; inversion H; subst; [assumption|apply IHn; assumption]. Qed.
+Lemma Forall_skipn' {A} (P : A -> Prop) n l : Forall P l -> Forall P (skipn n l).
+Proof. revert l. induction n; intros [|x l] H; try assumption. inversion H; subst. apply IHn. assumption. Qed.
+Lemma range_clip_nlfree o L : Forall nlfree L -> Forall nlfree (range_clip o L).
+Proof. intros H. unfold range_clip. destruct (o_range o) as [[a e]|]; [apply Forall_skipn', Forall_firstn'|]; exact H. Qed.
+Lemma pfx_blank_Forall (P : str -> Prop) a b : pfx_blank a b -> Forall P b -> Forall P a.
+Proof. intros [r [-> _]] H. apply Forall_app in H. apply H. Qed.
+Lemma Forall2_len {A B} (R : A -> B -> Prop) la lb : Forall2 R la lb -> length la = length lb.
+Proof. induction 1; cbn [length]; congruence. Qed.
+Lemma Forall2_diag {A} (R : A -> A -> Prop) (P : A -> Prop) l : (forall x, P x -> R x x) -> Forall P l -> Forall2 R l l.
+Proof. intros H. induction 1; constructor; auto. Qed.
+Lemma Forall2_impl_l {A B} (R R' : A -> B -> Prop) (P : A -> Prop) la lb :
+  (forall x y, P x -> R x y -> R' x y) -> Forall P la -> Forall2 R la lb -> Forall2 R' la lb.
+Proof. intros H HP HF. induction HF; constructor; inversion HP; subst; auto. Qed.
+
+(* what gets numbered: the selected lines, with indent guides when asked for (repaired tree: the
+   guide pass is skipped on an empty selection) *)
+Definition numbered_lines (o : opts) (shown : list str) : list str :=
+  if o_indent_guides o && match shown with [] => false | _ => true end
+  then with_guides (o_tab_size o) shown else shown.
 
 Section Main.
 Variable lex : str -> list (Z * str).
@@ -16,24 +47,47 @@ Variable wrapf : str -> Z -> bool -> list str.
 Hypothesis HLex : LexOk (f_lex fixed_facts) lex.
 Hypothesis HWrap : WrapOk wrapf.
 
-(* With line numbers: the output is, one numbered line for one source line, the lines of the range
-   clipped to those that exist, numbered from start_line + offset, marked exactly where
-   highlight_lines says, each cropped (or wrapped) to the code width; blank lines at the very end
-   may be missing. *)
-Theorem render_numbered_spec o code W :
-  clean code = true -> o_line_numbers o = true -> o_indent_guides o = false ->
-  0 <= o_start_line o -> range_end_nonneg o -> 0 <= code_width_of o code W ->
-  exists out, render lex fixed_facts wrapf o code W = Ok out /\ render_ok_b o code W out = true.
+(* the explicit form of a numbered rendering *)
+Lemma render_numbered_form o code W :
+  clean code = true -> o_line_numbers o = true -> range_end_nonneg o ->
+  (o_indent_guides o = true -> 1 <= o_tab_size o) ->
+  exists shown,
+    render lex fixed_facts wrapf o code W =
+      Ok (render_numbered wrapf o (numbers_column_width o code) (code_width_of o code W)
+            (numbered_lines o shown) (first_number o)) /\
+    pfx_blank shown (range_clip o (source_lines o code)) /\
+    (shown <> [] -> line_offset_of o + zlen shown <= count_nl code + 1).
 Proof.
-  intros Hclean Hln Hg Hstart Hre Hcw.
-  unfold render. set (c := expandtabs (o_tab_size o) code).
+  intros Hclean Hln Hre Hts.
+  unfold render, source_lines. set (c := expandtabs (o_tab_size o) code).
   assert (Hc : clean c = true) by (apply clean_expandtabs_go; exact Hclean).
   destruct (highlight_text lex (o_lexer_found o) c (o_range o) HLex Hc) as [t [Ht Hshape]].
-  rewrite Ht. cbn [bind]. rewrite Hln, Hg. cbn [negb andb].
-  eexists. split; [reflexivity|].
+  rewrite Ht. cbn [bind]. rewrite Hln. cbn [negb].
+  exists (shown_lines o (remove_suffix_nl t)). split.
+  - unfold numbered_lines. cbn [f_guides_guard fixed_facts negb orb].
+    destruct (o_indent_guides o) eqn:Eg; cbn [andb]; [|reflexivity].
+    destruct (shown_lines o (remove_suffix_nl t)) as [|l ls] eqn:El; [reflexivity|].
+    replace (o_tab_size o =? 0) with false by (specialize (Hts eq_refl); lia). reflexivity.
+  - pose proof (shown_lines_ok o t c Hre Hshape) as Hp. split; [exact Hp|].
+    intros Hne. pose proof (range_clip_bound o (split_nl c) _ Hp Hne) as Hb.
+    unfold zlen in Hb at 2. rewrite split_nl_length in Hb.
+    assert (Hnls : nls c = nls code) by apply nls_expandtabs_go.
+    rewrite count_nl_nls. lia.
+Qed.
+
+(* With line numbers -- with or without indent guides, wrapped or not: the output is, one numbered
+   line for one source line, the lines of the range clipped to those that exist, numbered from
+   start_line + offset, marked exactly where highlight_lines says, each cropped (or wrapped) to the
+   code width, guide characters only on ASCII spaces of the indentation (or continued through blank
+   lines); blank lines at the very end may be missing. *)
+Theorem render_numbered_spec o code W :
+  clean code = true -> o_line_numbers o = true -> opts_ok o (code_width_of o code W) ->
+  exists out, render lex fixed_facts wrapf o code W = Ok out /\ render_ok_b o code W out = true.
+Proof.
+  intros Hclean Hln [Hstart [Hre [Hcw [Hww Hts]]]].
+  destruct (render_numbered_form o code W Hclean Hln Hre Hts) as [shown [Hren [Hp Hb]]].
+  rewrite Hren. eexists. split; [reflexivity|].
   unfold render_ok_b, check_render. rewrite Hln.
-  unfold source_lines. fold c.
-  assert (Hnls : nls c = nls code) by apply nls_expandtabs_go.
   set (M := o_start_line o + count_nl code).
   assert (HM : 0 <= M) by (unfold M; rewrite count_nl_nls; lia).
   assert (Hncw : numbers_column_width o code = zlen (show_Z M) + 2).
@@ -43,52 +97,67 @@ Proof.
   assert (Hcw' : spec_code_width o code W = code_width_of o code W).
   { unfold spec_code_width, code_width_of. rewrite Hln, Hgw, Hncw. destruct (o_code_width o); lia. }
   rewrite Hncw, Hgw, Hcw'.
-  pose proof (shown_lines_ok o t c Hre Hshape) as Hp.
-  apply check_numbered_ok; try assumption.
-  - unfold line_offset_of. destruct (o_range o) as [[a e]|]; lia.
-  - intros Hne. pose proof (range_clip_bound o (split_nl c) _ Hp Hne) as Hb.
-    unfold zlen in Hb at 2. rewrite split_nl_length, Hnls in Hb.
-    unfold M. rewrite count_nl_nls. unfold first_number. lia.
+  assert (Hnl : Forall nlfree shown).
+  { apply (pfx_blank_Forall _ _ _ Hp). apply range_clip_nlfree. apply split_nl_nlfree. }
+  assert (Hk : 0 <= first_number o).
+  { unfold first_number, line_offset_of. destruct (o_range o) as [[a e]|]; lia. }
+  destruct Hp as [rest0 [Hexp Hrest0]]. rewrite Hexp.
+  unfold numbered_lines. destruct (o_indent_guides o) eqn:Eg; cbn [andb].
+  - destruct shown as [|l0 ls0] eqn:Esh.
+    + cbn [app]. apply (check_numbered_gen wrapf o M _ [] [] (Forall2_nil _) rest0); [exact Hrest0|exact Hk|congruence].
+    + rewrite <- Esh in *.
+      destruct (with_guides_rel (o_tab_size o) shown (Hts eq_refl) ltac:(rewrite Esh; discriminate)) as [S1 [r1 [HS [Hr1 HF]]]].
+      replace (shown ++ rest0) with (S1 ++ (r1 ++ rest0)) by (rewrite HS, app_assoc; reflexivity).
+      assert (HnS1 : Forall nlfree S1) by (rewrite HS in Hnl; apply Forall_app in Hnl; apply Hnl).
+      apply (check_numbered_gen wrapf o M).
+      * apply (Forall2_impl_l guide_rel _ nlfree); [|exact HnS1|exact HF].
+        intros e g He Hr. apply (line_shows_guided wrapf HWrap); assumption.
+      * rewrite forallb_app, Hr1, Hrest0. reflexivity.
+      * exact Hk.
+      * intros _. specialize (Hb ltac:(rewrite Esh; discriminate)).
+        apply Forall2_len in HF. rewrite HS in Hb. unfold zlen in *. rewrite app_length in Hb.
+        unfold M. rewrite count_nl_nls in *. unfold first_number. lia.
+  - apply (check_numbered_gen wrapf o M).
+    + apply (Forall2_diag _ nlfree); [|exact Hnl]. intros l Hl. apply (line_shows_plain wrapf HWrap); assumption.
+    + exact Hrest0.
+    + exact Hk.
+    + intros Hne. specialize (Hb Hne). unfold M. rewrite count_nl_nls in *. unfold first_number. lia.
 Qed.
 
 Corollary syntax_lines o code W :
-  clean code = true -> o_line_numbers o = true -> o_indent_guides o = false ->
-  0 <= o_start_line o -> range_end_nonneg o -> 0 <= code_width_of o code W ->
+  clean code = true -> o_line_numbers o = true -> opts_ok o (code_width_of o code W) ->
   exists out, render lex fixed_facts wrapf o code W = Ok out /\ lines_match_b o code W out = true.
 Proof.
-  intros. destruct (render_numbered_spec o code W) as [out [Hr1 Hr2]]; try assumption.
+  intros Hc Hln Hok. destruct (render_numbered_spec o code W Hc Hln Hok) as [out [Hr1 Hr2]].
   exists out. split; [exact Hr1|]. unfold lines_match_b, render_ok_b, check_render in *.
-  destruct (o_line_numbers o); [|congruence]. apply check_lines_weaken. exact Hr2.
+  rewrite Hln in *. apply check_lines_weaken. exact Hr2.
 Qed.
 
 Corollary numbers_right o code W :
-  clean code = true -> o_line_numbers o = true -> o_indent_guides o = false ->
-  0 <= o_start_line o -> range_end_nonneg o -> 0 <= code_width_of o code W ->
+  clean code = true -> o_line_numbers o = true -> opts_ok o (code_width_of o code W) ->
   exists out, render lex fixed_facts wrapf o code W = Ok out /\ numbers_ok_b o code W out = true.
 Proof.
-  intros. destruct (render_numbered_spec o code W) as [out [Hr1 Hr2]]; try assumption.
+  intros Hc Hln Hok. destruct (render_numbered_spec o code W Hc Hln Hok) as [out [Hr1 Hr2]].
   exists out. split; [exact Hr1|]. unfold numbers_ok_b, render_ok_b, check_render in *.
-  destruct (o_line_numbers o); [|congruence]. apply check_lines_weaken. exact Hr2.
+  rewrite Hln in *. apply check_lines_weaken. exact Hr2.
 Qed.
 
 Corollary range_exact o code W :
-  clean code = true -> o_line_numbers o = true -> o_indent_guides o = false ->
-  0 <= o_start_line o -> range_end_nonneg o -> 0 <= code_width_of o code W ->
+  clean code = true -> o_line_numbers o = true -> opts_ok o (code_width_of o code W) ->
   exists out, render lex fixed_facts wrapf o code W = Ok out /\ range_ok_b o code W out = true.
 Proof.
-  intros. destruct (render_numbered_spec o code W) as [out [Hr1 Hr2]]; try assumption.
+  intros Hc Hln Hok. destruct (render_numbered_spec o code W Hc Hln Hok) as [out [Hr1 Hr2]].
   exists out. split; [exact Hr1|]. unfold range_ok_b, render_ok_b, check_render in *.
-  destruct (o_line_numbers o); [|congruence]. apply check_lines_weaken. exact Hr2.
+  rewrite Hln in *. apply check_lines_weaken. exact Hr2.
 Qed.
 
 Corollary marks_right o code W :
-  clean code = true -> o_line_numbers o = true -> o_indent_guides o = false ->
-  0 <= o_start_line o -> range_end_nonneg o -> 0 <= code_width_of o code W ->
+  clean code = true -> o_line_numbers o = true -> opts_ok o (code_width_of o code W) ->
   exists out, render lex fixed_facts wrapf o code W = Ok out /\ marks_ok_b o code W out = true.
 Proof.
-  intros. destruct (render_numbered_spec o code W) as [out [Hr1 Hr2]]; try assumption.
+  intros Hc Hln Hok. destruct (render_numbered_spec o code W Hc Hln Hok) as [out [Hr1 Hr2]].
   exists out. split; [exact Hr1|]. unfold marks_ok_b, render_ok_b, check_render in *.
-  destruct (o_line_numbers o); [|congruence]. apply check_lines_weaken. exact Hr2.
+  rewrite Hln in *. apply check_lines_weaken. exact Hr2.
 Qed.
 
 (* Highlighting never changes a character (no range: exactly the code up to its final newline) *)
@@ -116,29 +185,26 @@ Proof.
 Qed.
 
 (* One traceback frame (the Syntax call of Traceback._render_stack, keyword values regenerated from
-   /repo): whatever the file's leading blank lines or length, the block shows lines
-   lineno-extra..lineno+extra clipped to the file, each under its own number, and the pointer marks
-   the line numbered lineno and no other. *)
-Theorem traceback_frame_ok code lineno extra ww transparent W :
+   /repo), with or without indent guides, wrapped or not. *)
+Theorem traceback_frame_ok code lineno extra ww transparent guides W :
   clean code = true -> 0 <= extra -> 1 <= lineno ->
   SyntaxFacts.tb_line_numbers = true -> SyntaxFacts.tb_range_is_lineno_pm_extra = true ->
-  SyntaxFacts.tb_highlight_is_lineno = true -> 0 <= SyntaxFacts.tb_code_width ->
-  0 <= SyntaxFacts.syntax_default_start_line ->
-  let o := tb_opts lineno extra ww transparent false in
-  exists out, render_frame lex fixed_facts wrapf code lineno extra ww transparent false W = Ok out /\
+  SyntaxFacts.tb_highlight_is_lineno = true -> 2 <= SyntaxFacts.tb_code_width ->
+  0 <= SyntaxFacts.syntax_default_start_line -> 1 <= SyntaxFacts.syntax_default_tab_size ->
+  let o := tb_opts lineno extra ww transparent guides in
+  exists out, render_frame lex fixed_facts wrapf code lineno extra ww transparent guides W = Ok out /\
               render_ok_b o code W out = true /\
               o_highlight o = [lineno] /\ o_range o = Some (lineno - extra, lineno + extra).
 Proof.
-  intros Hc He Hl F1 F2 F3 F4 F5 o. unfold render_frame. fold o.
+  intros Hc He Hl F1 F2 F3 F4 F5 F6 o. unfold render_frame. fold o.
   assert (Ho : o_highlight o = [lineno] /\ o_range o = Some (lineno - extra, lineno + extra)).
   { unfold o, tb_opts. cbn [o_highlight o_range]. rewrite F2, F3. split; reflexivity. }
   assert (A1 : o_line_numbers o = true) by exact F1.
-  assert (A2 : o_indent_guides o = false) by reflexivity.
-  assert (A3 : 0 <= o_start_line o) by exact F5.
-  assert (A4 : range_end_nonneg o).
-  { unfold range_end_nonneg. destruct Ho as [_ Hr]. rewrite Hr. lia. }
-  assert (A5 : 0 <= code_width_of o code W) by exact F4.
-  destruct (render_numbered_spec o code W Hc A1 A2 A3 A4 A5) as [out [H1 H2]].
+  assert (A2 : opts_ok o (code_width_of o code W)).
+  { unfold opts_ok. split; [exact F5|]. split; [unfold range_end_nonneg; destruct Ho as [_ Hr]; rewrite Hr; lia|].
+    assert (Hcw : code_width_of o code W = SyntaxFacts.tb_code_width) by reflexivity.
+    rewrite Hcw. split; [lia|]. split; [intros _; exact F4|intros _; exact F6]. }
+  destruct (render_numbered_spec o code W Hc A1 A2) as [out [H1 H2]].
   exists out. repeat split; try assumption; apply Ho.
 Qed.
 End Main.
